@@ -112,7 +112,7 @@ pub fn run(tier: &str) -> Result<Report, String> {
     for b in nets.iter().filter(|b| which.contains(&b.name.as_str())) {
         crate::sem::note_network(&mut rep, b);
         let env = Env::new(b)?;
-        let mut g = Gen::new(Alphabet::plain(env.ctxs[0].nprops(), 3));
+        let mut g = Gen::new(Alphabet::all_ops(env.ctxs[0].nprops(), 3));
         let mut fs = g.closed_up_to(m);
         fs.extend(templates(&env.ctxs[0].user, false, pool));
         fs.extend(duplicate_templates(env.ctxs[0].nprops(), if tier == "quick" { 4 } else { 5 }, true, false));
